@@ -237,6 +237,27 @@ def one_case(run, seed, idx, mods):
         p3 = unitcell.unitcell(cell, sym).gethkls(d2)
         if sorted(p2) != sorted(p3):
             run.violation("gethkls:history", "list after re-calling with a smaller limit differs from fresh", desc)
+    # longer histories on ONE object: limits go wide -> narrow -> medium in random order, mixing gethkls and makerings;
+    # after every call the returned list / ring table must be that of the limit just asked for
+    if idx % 2 == 0:
+        uh = unitcell.unitcell(cell, sym)
+        fracs = list(r.permutation([1.0, 0.45, 0.75, 0.3, 0.9]))[:4]
+        hist = []
+        for f in fracs:
+            lim_h = dsmax * float(f)
+            if r.random() < 0.5:
+                hist.append("gethkls(%.4f)" % lim_h)
+                ph = uh.gethkls(lim_h)
+                check_list(run, uh, cell, sym, lim_h, ph, dict(desc, history=list(hist)), "gethkls:history")
+            else:
+                hist.append("makerings(%.4f,%.4g)" % (lim_h, tol))
+                full = brute(cell, sym, lim_h + tol)
+                if not (full[4] & full[5]).any():
+                    continue
+                uh.makerings(lim_h, tol)
+                check_list(run, uh, cell, sym, lim_h + tol, uh.peaks, dict(desc, history=list(hist)), "makerings:history")
+                check_rings(run, uh, lim_h, tol, dict(desc, history=list(hist)))
+            run.count("history_steps")
     # rings
     lim = dsmax * float(r.uniform(0.5, 1.0))
     uc2 = unitcell.unitcell(cell, sym)
@@ -267,3 +288,4 @@ def check(run, replay=None):
         one_case(run, run.seed, idx, mods)
     run.require_counter("reflections_checked", 1000)
     run.require_counter("rings_checked", 100)
+    run.require_counter("history_steps", 50)
